@@ -1473,7 +1473,8 @@ def _record(ex, args, kw, st):
 
 
 TABLE['record_'] = _record
-for _n in ('apsum', 'aperr', 'aparea', 'modelimg', 'apvalues', 'bkgest', 'apphot', 'cgrid', 'egrid', 'rgrid', 'modelval'):
+for _n in ('apsum', 'aperr', 'aparea', 'modelimg', 'apvalues', 'bkgest', 'apphot', 'cgrid', 'egrid', 'rgrid', 'modelval',
+           'apmask'):
     TABLE[_n + '_'] = cl_uf(_n)
 
 
